@@ -24,6 +24,10 @@ class CountingLogger(Logger):
     def process(self, logs):
         self.records.extend(logs)
 
+    def __len__(self):
+        # a logger that is falsy while it holds nothing (loggers are objects users subclass): code that tests `if logger:` instead of `is not None` silently stops reporting
+        return len(self.records)
+
 
 def mk_market(tick=1.0, price=10.0, chunk=5, logger=True, market_id=0):
     m = Market(market_id=market_id, prng=random.Random(0), simulator=Sim(), name=f"m{market_id}", logger=CountingLogger() if logger else None)
